@@ -75,4 +75,68 @@ example : inScope ⟨.linkDir, .auto, false, true, false, .absent, true⟩ = tru
 example : identify ⟨.linkDir, .auto, false, true, false, .absent, true⟩ = .print .contentOfLinkText false true := by decide
 example : identify ⟨.linkDir, .directory, true, false, true, .absent, false⟩ = .print .directory true false := by decide
 
+/-! ### several OBJECT arguments -/
+
+/-- with one OBJECT the command-line model is the single-object model -/
+theorem many_single (c : Cmd) (k : ArgKind) (h : c.kinds = [k]) :
+    identifyMany c = [identify (c.cfg k c.recursive)] := by
+  rcases c with ⟨ks, t, d, f, r, v, x⟩
+  simp only at h
+  subst h
+  cases k <;> cases t <;> cases d <;> cases f <;> cases r <;> cases v <;> cases x <;> rfl
+
+/-- **verification of several objects is a usage error** (documented as unsupported) -/
+theorem many_verify_needs_one (c : Cmd) (k k' : ArgKind) (rest : List ArgKind)
+    (h : c.kinds = k :: k' :: rest) (hv : c.verify ≠ .absent) :
+    identifyMany c = [.usageError] := by
+  rcases c with ⟨ks, t, d, f, r, v, x⟩
+  simp only at h hv
+  subst h
+  cases v
+  · exact absurd rfl hv
+  all_goals simp [identifyMany]
+
+theorem takeUntilError_of_no_error (l : List Outcome) (h : ∀ o ∈ l, o ≠ .usageError) :
+    takeUntilError l = l := by
+  induction l with
+  | nil => rfl
+  | cons o t ih =>
+    have ho := h o (by simp)
+    have ht := ih (fun o' ho' => h o' (by simp [ho']))
+    cases o <;> simp_all [takeUntilError]
+
+/-- **one line per OBJECT, in order**: without verification and recursion, with the automatic type,
+every argument is identified on its own line as the object it designates -/
+theorem many_prints_each (c : Cmd) (k : ArgKind) (rest : List ArgKind) (h : c.kinds = k :: rest)
+    (ht : c.type = .auto) (hv : c.verify = .absent) (hr : (c.recursive && isdir k) = false) :
+    identifyMany c = (k :: rest).map (fun k' =>
+      match designated k' c.deref .auto with
+      | some d => .print d false c.filename
+      | none => .unspecified) := by
+  rcases c with ⟨ks, t, d, f, r, v, x⟩
+  simp only at h ht hv hr
+  subst h ht hv
+  have hstep : ∀ k' : ArgKind, identify (Cmd.cfg ⟨k :: rest, .auto, d, f, r, .absent, x⟩ k' false) =
+      (match designated k' d .auto with
+        | some dd => Outcome.print dd false f
+        | none => Outcome.unspecified) := by
+    intro k'
+    cases k' <;> cases d <;> cases f <;> rfl
+  have hne : ∀ o ∈ (k :: rest).map (fun k' => identify (Cmd.cfg ⟨k :: rest, .auto, d, f, r, .absent, x⟩ k' false)),
+      o ≠ Outcome.usageError := by
+    intro o ho
+    obtain ⟨k', _, rfl⟩ := List.mem_map.mp ho
+    rw [hstep k']
+    cases k' <;> cases d <;> simp [designated]
+  unfold identifyMany
+  simp only [hr]
+  simp only [show (VerifyOpt.absent = VerifyOpt.malformed) = False from by simp, if_false,
+    show ((VerifyOpt.absent ≠ VerifyOpt.absent) ∧ rest ≠ []) = False from by simp]
+  rw [takeUntilError_of_no_error _ hne]
+  exact List.map_congr_left (fun k' _ => hstep k')
+
+example : identifyMany ⟨[.file, .dir, .linkFile], .auto, false, true, false, .absent, true⟩ =
+    [.print .contentOfFile false true, .print .directory false true, .print .contentOfLinkText false true] := by decide
+example : identifyMany ⟨[.file, .file], .auto, true, true, false, .matching, false⟩ = [.usageError] := by decide
+
 end Swh.C18
